@@ -64,6 +64,13 @@ def dispatch (op : String) (args : List String) : Option String :=
       | some a, some k, some d => res (macCreate a k d) | _, _, _ => "bad-op")
   | "prim.macverify", [alg, key, data, tag] => some (match alg.toInt?, unhex key, unhex data, unhex tag with
       | some a, some k, some d, some t => macVerifyOp a k d t | _, _, _, _ => "bad-op")
+  -- history freedom: the second use of one MACer / Encryptor answers like the only use of a fresh one
+  | "prim.mac2", [alg, key, _d1, d2] => some (match alg.toInt?, unhex key, unhex d2 with
+      | some a, some k, some d => res (macCreate a k d) | _, _, _ => "bad-op")
+  | "prim.macrekey", [alg, _k1, k2, data] => some (match alg.toInt?, unhex k2, unhex data with
+      | some a, some k, some d => res (macCreate a k d) | _, _, _ => "bad-op")
+  | "prim.aead2", [alg, key, _n1, _p1, _a1, n2, p2, a2] => some (match alg.toInt?, unhex key, unhex n2, unhex p2, unhex a2 with
+      | some a, some k, some n, some p, some ad => res (aeadEnc a k n p ad) | _, _, _, _, _ => "bad-op")
   | "prim.aead.enc", [alg, key, nonce, pt, aad] => some (match alg.toInt?, unhex key, unhex nonce, unhex pt, unhex aad with
       | some a, some k, some n, some p, some ad => res (aeadEnc a k n p ad) | _, _, _, _, _ => "bad-op")
   | "prim.aead.dec", [alg, key, nonce, ct, aad] => some (match alg.toInt?, unhex key, unhex nonce, unhex ct, unhex aad with
